@@ -241,6 +241,10 @@ type MsgSpec struct {
 	// declare (a client built against a newer schema); protobuf keeps such
 	// fields, so they must arrive
 	Unknown bool `json:"unknown,omitempty"`
+	// Note: the embedded Payload carries the field that only the backends'
+	// build of grpc/testing/messages.proto declares (set on the direct twin of
+	// a JSON-fronted call, whose messages carry it through Unknown)
+	Note bool `json:"note,omitempty"`
 }
 
 // withUnknown adds an undeclared field (number 1000, bytes) to m.
